@@ -50,6 +50,7 @@ type Exec struct {
 	localObjs    []localObj // objects allocated by the frames being executed, with their types
 	freshMutexes []string // mutexes of objects this function allocated (free on allocation)
 	immut        []immutCell // captured variables that are never re-assigned: they keep their entry value across havocs
+	panicDepth   int  // >0 while deferred functions run because of a panic: recover() returns non-nil
 	lastSel      *selInfo // the most recently generated select statement (for selected()/offers())
 	typedHavocs []*thEvent
 	thDone      map[string]bool
@@ -77,6 +78,9 @@ type Frame struct {
 	curSite  ssa.Instruction
 	rangeDom map[ssa.Value]string // key set a map iteration started from
 	heads    map[*ssa.BasicBlock]*State
+	parent      *Frame   // the frame this one is inlined into
+	recovers    bool     // the function defers a closure that calls recover()
+	panicStates []*State // states in which a panic was raised under this frame's recovering defer
 }
 
 type retInfo struct {
@@ -609,6 +613,15 @@ func (fr *Frame) safe(st *State, what string, p token.Pos, goal string) {
 	if !fr.top {
 		name = fmt.Sprintf("%s#safe:%s:%s", x.target, fr.prefix, what)
 	}
+	if rf := fr.recoveringFrame(st); rf != nil {
+		// the run-time panic this check stands for would be caught by a deferred recover(): no obligation; the
+		// panicking state goes to the recovering frame, execution continues here only where the check holds
+		ps := st.clone()
+		ps.Reach = x.c.define("R", "Bool", and(st.Reach, not(goal)))
+		rf.panicStates = append(rf.panicStates, ps)
+		st.Reach = x.c.define("R", "Bool", and(st.Reach, goal))
+		return
+	}
 	x.c.oblige(name, "safe", x.target, what, fr.pos(p), st.Reach, goal, fr.modelReqs())
 	// after the check, execution continues only if it held
 	x.c.assume(implies(st.Reach, goal))
@@ -630,7 +643,59 @@ func (x *Exec) newFrame(fn *ssa.Function, depth int, top bool) *Frame {
 	key := FuncKey(fn)
 	fr := &Frame{x: x, fn: fn, key: key, env: map[ssa.Value]string{}, tup: map[ssa.Value][]string{}, depth: depth, top: top, prefix: key}
 	fr.ct = x.w.Contracts[key]
+	fr.recovers = defersRecover(fn)
 	return fr
+}
+
+// defersRecover: does fn defer a function literal that calls recover()?
+func defersRecover(fn *ssa.Function) bool {
+	for _, b := range fn.Blocks {
+		for _, in := range b.Instrs {
+			d, ok := in.(*ssa.Defer)
+			if !ok {
+				continue
+			}
+			var callee *ssa.Function
+			if mc, ok := d.Call.Value.(*ssa.MakeClosure); ok {
+				callee, _ = mc.Fn.(*ssa.Function)
+			} else {
+				callee = d.Call.StaticCallee()
+			}
+			if callee != nil && callsRecover(callee) {
+				return true
+			}
+		}
+	}
+	return false
+}
+
+func callsRecover(f *ssa.Function) bool {
+	for _, b := range f.Blocks {
+		for _, in := range b.Instrs {
+			if c, ok := in.(*ssa.Call); ok {
+				if bi, ok := c.Call.Value.(*ssa.Builtin); ok && bi.Name() == "recover" {
+					return true
+				}
+			}
+		}
+	}
+	return false
+}
+
+// recoveringFrame: the nearest frame (this one or one it is inlined into) whose recovering defer has been registered
+// on the current path: a panic raised here is caught there.
+func (fr *Frame) recoveringFrame(st *State) *Frame {
+	for f := fr; f != nil; f = f.parent {
+		if !f.recovers {
+			continue
+		}
+		for k := range f.defers {
+			if f.x.get(st, fmt.Sprintf("dfr:%s/%d/%d", f.key, f.depth, k)) == "true" {
+				return f
+			}
+		}
+	}
+	return nil
 }
 
 // natural loops: header -> set of blocks
